@@ -280,6 +280,16 @@ func (s *Server) onQuery(c *core.Conn, qid []byte, data []byte) {
 	h := sha256.Sum256(data)
 	ans := append([]byte("ECHO"), h[:]...)
 	ans = binary.LittleEndian.AppendUint32(ans, uint32(s.EchoCounter))
+	// a request marked EE EE EE EF asks for an answer padded by the number of bytes it names (answers of every size
+	// class of the TL bytes encoding: one-byte and four-byte length prefixes, beyond 64 KiB)
+	if len(data) >= 12 && data[4] == 0xEE && data[5] == 0xEE && data[6] == 0xEE && data[7] == 0xEF {
+		if n := int(binary.LittleEndian.Uint32(data[8:12])); n <= 4<<20 {
+			for i := 0; i < n; i++ {
+				ans = append(ans, h[i%32]^byte(i>>5))
+			}
+			s.W.Probe("sized-answer")
+		}
+	}
 	s.reply(c, qid, ans)
 }
 
